@@ -28,6 +28,9 @@ func c05Impl(in []int64) []int64 {
 	if len(in) > 0 && in[0] == -5 {
 		return wideImpl(in)
 	}
+	if len(in) > 0 && in[0] == -7 {
+		return longImpl(in)
+	}
 	tc, ok := decodeTrieCase(in, false)
 	if !ok {
 		return []int64{BADCASE}
@@ -119,6 +122,7 @@ func c05TryExh(t *T, family string, tc *trieCase, textIdx int) {
 
 func c05Gen(c *Ctx) {
 	wideGen(c, -5) // very wide / very large tries, judged by the closed form of Run/C106.v
+	longGen(c)     // very long patterns (more than 65535 bytes), judged by the direct evaluation of Run/C107.v
 	if cs := trieCollisionCases(); true {
 		_, note := trieCollisionHits()
 		c.Note(note)
@@ -340,9 +344,17 @@ func c05Gen(c *Ctx) {
 }
 
 func init() {
-	Register(&Prop{ID: "C05", Pure: true, Num: 5, NumOf: wideNum(5), SpecMode: "rel", Gen: c05Gen, Impl: c05Impl,
-		Shrink:   trieShrink(false),
+	Register(&Prop{ID: "C05", Pure: true, Num: 5, NumOf: longNum(5), SpecMode: "rel", Gen: c05Gen, Impl: c05Impl,
+		Shrink: func(in []int64) [][]int64 {
+			if len(in) > 0 && in[0] == -7 {
+				return longShrink(in)
+			}
+			return trieShrink(false)(in)
+		},
 		Describe: func(in []int64) string {
+			if len(in) > 0 && in[0] == -7 {
+				return longDescribe(in)
+			}
 			if len(in) > 3 && (in[0] == -5 || in[0] == -6) {
 				return fmt.Sprintf("wide trie: all %d-rune patterns over the %d runes from U+%X; text runes, replacement, mask: %v", in[3], in[2], in[1], in[4:])
 			}
